@@ -417,3 +417,237 @@ Proof.
   - rewrite LenA in M0. rewrite LenC, LenA in NC. rewrite LenC, LenA. field. split; assumption.
 Qed.
 End Main.
+
+(* ------------------------------------------------------------------------------------------------ general K *)
+Lemma somes_all_some {A} (f : A -> option Q) (l : list A) :
+  (forall x, In x l -> is_some (f x) = true) -> somes (map f l) = map (fun x => oval (f x)) l.
+Proof.
+  induction l as [|x xs IH]; intros H; [reflexivity|]. cbn [map somes].
+  pose proof (H x (or_introl eq_refl)) as Hx. destruct (f x) as [v|]; [|discriminate].
+  cbn [oval]. rewrite IH by (intros y Hy; apply H; right; exact Hy). reflexivity.
+Qed.
+
+Lemma mean_skipna_all {A} (f : A -> option Q) (l : list A) : l <> [] ->
+  (forall x, In x l -> is_some (f x) = true) ->
+  exists v, mean_skipna (map f l) = Some v /\ v == Qsum (fun x => oval (f x)) l / Qlen l.
+Proof.
+  intros Hne H. unfold mean_skipna. rewrite (somes_all_some f l H).
+  destruct l as [|x xs]; [congruence|]. cbn [map]. eexists. split; [reflexivity|].
+  rewrite Qred_correct, Qsumr_eq.
+  change (oval (f x) :: map (fun x0 => oval (f x0)) xs) with (map (fun x0 => oval (f x0)) (x :: xs)).
+  rewrite Qsum_map, Qlen_map. reflexivity.
+Qed.
+
+Lemma positivityb_facts K plan rows : length plan = K -> (forall r, In r rows -> wf_facts K r) ->
+  positivityb plan rows = true ->
+  forall k r lh, (k < K)%nat -> In r rows -> atrisk r k = true -> histn cov r (S k) = Some lh ->
+  filter (riskset k (firstn (S k) plan) lh) rows <> [].
+Proof.
+  intros Hp Hwf H k r lh Hk Hr Ha Hh. unfold positivityb in H. rewrite forallb_forall in H.
+  specialize (H k). rewrite in_seq, Hp in H. specialize (H ltac:(lia)). rewrite forallb_forall in H.
+  specialize (H r Hr). rewrite <- (wf_risk K r (Hwf r Hr) k Hk), Ha, Hh in H. simpl in H.
+  apply existsb_filter_nonempty. exact H.
+Qed.
+
+(* THE MAIN THEOREM: for every number of time points K >= 1, every static plan, every survival-type wide data set
+   satisfying positivity for the plan, the backward loop with saturated (cell-mean) sequential regressions
+   returns a number, and that number is the nonparametric g-formula cumulative risk by direct stratification *)
+Theorem icg_eq_np_gformula : forall K (plan : planrow) rows, (0 < K)%nat -> length plan = K -> rows <> [] ->
+  forallb (surv_wfb K) rows = true -> positivityb plan rows = true ->
+  exists v, icg_fit K (PlanRow plan) rows = Some (Some v) /\ v == np_gformula plan rows.
+Proof.
+  intros K plan rows HK Hp Hne Hwfb Hposb.
+  assert (Hwf : forall r, In r rows -> wf_facts K r).
+  { intros r Hr. apply surv_wfb_facts. rewrite forallb_forall in Hwfb. apply Hwfb. exact Hr. }
+  pose proof (positivityb_facts K plan rows Hp Hwf Hposb) as Hpos.
+  unfold icg_fit, icg_fit_gen, expand_plan. rewrite Hp, Nat.eqb_refl, combine_repeat.
+  change (map (fun x : row => (x, plan)) rows) with (rps_of plan rows).
+  replace (length rows) with (length (rps_of plan rows)) by (unfold rps_of; apply map_length).
+  rewrite icg_loop_FF. unfold rps_of at 2. rewrite map_map.
+  assert (Hat0 : forall r, In r rows -> atrisk r 0 = true).
+  { intros r Hr. rewrite (wf_risk K r (Hwf r Hr) 0 HK). reflexivity. }
+  pose proof (FF_char K plan rows Hp Hwf Hpos K 0 ltac:(lia)) as Ch.
+  destruct (mean_skipna_all (fun r => FF cellmean_reg (rps_of plan rows) K 0 (r, plan)) rows Hne) as (v & Ev & Hv).
+  { intros r Hr. destruct (Ch r Hr) as [_ Cs]. destruct (Cs (Hat0 r Hr)) as (w & lh & E & _). cbv beta. rewrite E. reflexivity. }
+  exists v. split; [rewrite Ev; reflexivity|]. rewrite Hv. clear Ev Hv v.
+  unfold np_gformula. rewrite Hp. destruct K as [|d]; [lia|].
+  set (key := fun r : row => cov (ob r 0)).
+  set (Gn := fun b : bool => G plan rows (S d) 0 ([] ++ [b])).
+  change (np_rec plan rows (S d) 0 []) with (Qsum (fun l => fprop plan rows 0 [] l * Gn l) [false; true]).
+  rewrite (Qsum_by_bool key Gn).
+  2:{ intros r Hr. destruct (Ch r Hr) as [_ Cs]. destruct (Cs (Hat0 r Hr)) as (w & lh & E & Eh & Ew).
+      rewrite (histn_S cov r 0) in Eh by (rewrite (wf_len _ r (Hwf r Hr)); lia). rewrite histn_0 in Eh.
+      unfold key. destruct (cov (ob r 0)) as [b|]; [|discriminate]. exists b. split; [reflexivity|].
+      inversion Eh; subst lh. rewrite E. exact Ew. }
+  assert (Nden : Ncell rows 0 (firstn 0 plan) [] = Qlen rows).
+  { unfold Ncell. f_equal. apply filter_all. intros r _. reflexivity. }
+  assert (Nnum : forall b, Ncell rows 0 (firstn 0 plan) ([] ++ [b]) = Qlen (filter (okey key b) rows)).
+  { intros b. unfold Ncell. f_equal. apply filter_ext_in. intros r Hr. unfold riskset.
+    cbn [firstn length survivedb seq forallb]. rewrite app_length. cbn [length plus].
+    rewrite (oeqb_histn_S cov r 0 [] b) by (rewrite (wf_len _ r (Hwf r Hr)); lia). reflexivity. }
+  cbn [Qsum]. unfold fprop. rewrite Nden, !Nnum.
+  assert (NC : ~ Qlen rows == 0) by (apply Qlen_nonempty; exact Hne).
+  field. exact NC.
+Qed.
+
+(* the same statement for K = 2 and K = 3 (instances, kept because the property names these sizes) *)
+Corollary icg_eq_np_gformula_K2 : forall a0 a1 rows, rows <> [] ->
+  forallb (surv_wfb 2) rows = true -> positivityb [a0; a1] rows = true ->
+  exists v, icg_fit 2 (PlanRow [a0; a1]) rows = Some (Some v) /\ v == np_gformula [a0; a1] rows.
+Proof. intros. apply icg_eq_np_gformula; auto. Qed.
+
+Corollary icg_eq_np_gformula_K3 : forall a0 a1 a2 rows, rows <> [] ->
+  forallb (surv_wfb 3) rows = true -> positivityb [a0; a1; a2] rows = true ->
+  exists v, icg_fit 3 (PlanRow [a0; a1; a2]) rows = Some (Some v) /\ v == np_gformula [a0; a1; a2] rows.
+Proof. intros. apply icg_eq_np_gformula; auto. Qed.
+
+(* ------------------------------------------------------------------------------------------------ plan shape *)
+Theorem icg_plan_rows_irrelevant : forall reg K p ps rows, length p = K -> length ps = length rows ->
+  Forall (eq p) ps -> icg_fit_gen reg K (PlanRows ps) rows = icg_fit_gen reg K (PlanRow p) rows.
+Proof.
+  intros reg K p ps rows Hp Hl Hall.
+  assert (E : ps = repeat p (length rows)).
+  { rewrite <- Hl. clear Hl. induction Hall as [|x xs Hx _ IH]; [reflexivity|]. simpl. subst x. rewrite <- IH. reflexivity. }
+  unfold icg_fit_gen, expand_plan. rewrite Hp, Nat.eqb_refl.
+  assert (V : (length ps =? length rows) && forallb (fun q : planrow => length q =? K) ps = true).
+  { rewrite Hl, Nat.eqb_refl. simpl. apply forallb_forall. intros q Hq. rewrite Forall_forall in Hall.
+    rewrite <- (Hall q Hq), Hp. apply Nat.eqb_refl. }
+  match goal with |- match (if ?b then _ else _) with _ => _ end = _ => replace b with true by (symmetry; exact V) end.
+  rewrite E. reflexivity.
+Qed.
+
+(* ------------------------------------------------------------------------------------------------ one time point *)
+Definition complete1 (r : row) : bool :=
+  match r with [o] => is_some (tr o) && is_some (cov o) && is_some (out o) | _ => false end.
+
+Lemma tfg_kept_all os : (forall o, In o os -> is_some (tr o) && is_some (cov o) = true) ->
+  filter (fun o => is_some (tr o) && is_some (cov o)) os = os.
+Proof. intros H. apply filter_all. exact H. Qed.
+
+(* K = 1: IterativeCondGFormula and TimeFixedGFormula with the same regression (ANY regression oracle, any
+   outcome values) return the same thing, NaN included *)
+Theorem icg_K1_eq_timefixed : forall reg a rows, forallb complete1 rows = true ->
+  icg_fit_gen reg 1 (PlanRow [a]) rows = Some (tfg_fit reg a (map (fun r => ob r 0) rows)).
+Proof.
+  intros reg a rows H. rewrite forallb_forall in H.
+  assert (Hc : forall r, In r rows -> exists x l y, r = [mkObs (Some x) (Some l) (Some y)]).
+  { intros r Hr. specialize (H r Hr). unfold complete1 in H. destruct r as [|o [|? ?]]; try discriminate.
+    destruct o as [[x|] [l|] [y|]]; try discriminate. exists x, l, y. reflexivity. }
+  unfold icg_fit_gen, expand_plan. cbn [length Nat.eqb]. f_equal. rewrite combine_repeat.
+  set (rps := map (fun x : row => (x, [a])) rows).
+  replace (length rows) with (length rps) by (apply map_length).
+  rewrite icg_loop_FF. cbn [FF]. unfold tfg_fit.
+  rewrite tfg_kept_all.
+  2:{ intros o Ho. apply in_map_iff in Ho. destruct Ho as (r & E & Hr). destruct (Hc r Hr) as (x & l & y & Er).
+      subst r o. reflexivity. }
+  assert (Et : trainF rps 0 (fun _ => None) =
+               map (fun o : obs => (match tr o, cov o with Some x0, Some l => Some ([x0], [l]) | _, _ => None end, out o))
+                   (map (fun r : row => ob r 0) rows)).
+  { unfold trainF, rps. rewrite !map_map. apply map_ext_in. intros r Hr.
+    destruct (Hc r Hr) as (x & l & y & Er). subst r. reflexivity. }
+  unfold stepF. rewrite Et. unfold rps. rewrite !map_map. f_equal. apply map_ext_in. intros r Hr.
+  destruct (Hc r Hr) as (x & l & y & Er). subst r. reflexivity.
+Qed.
+
+(* ... and with the saturated model that common value is the standardised mean over the covariate strata *)
+Theorem tfg_saturated_is_standardisation : forall a os, os <> [] ->
+  (forall o, In o os -> is_some (tr o) && is_some (cov o) && is_some (out o) = true) ->
+  (forall o, In o os -> exists o', In o' os /\ tr o' = Some a /\ cov o' = cov o) ->
+  exists v, tfg_fit cellmean_reg a os = Some v /\ v == std1 a os.
+Proof.
+  intros a os Hne Hc Hpos. unfold tfg_fit. rewrite tfg_kept_all.
+  2:{ intros o Ho. specialize (Hc o Ho). rewrite !andb_true_iff in Hc. apply andb_true_iff. tauto. }
+  set (train := map (fun o => (match tr o, cov o with Some x, Some l => Some ([x], [l]) | _, _ => None end, out o)) os).
+  set (cellL := fun l : bool => filter (fun o => oeqb (opt_all [tr o]) [a]) (filter (fun o => oeqb (opt_all [cov o]) [l]) os)).
+  assert (Esel : forall l, filter (in_train ([a], [l])) train =
+                           map (fun o => (match tr o, cov o with Some x, Some l => Some ([x], [l]) | _, _ => None end, out o)) (cellL l)).
+  { intros l. unfold train, cellL. rewrite filter_map_comm, filter_and. f_equal. apply filter_ext_in.
+    intros o Ho. specialize (Hc o Ho). destruct o as [[x|] [c|] [y|]]; try discriminate.
+    unfold in_train, cell_eqb. cbn. rewrite !andb_true_r. apply andb_comm. }
+  assert (Hcell : forall o l, In o os -> cov o = Some l -> cellL l <> []).
+  { intros o l Ho El. destruct (Hpos o Ho) as (o' & Ho' & Ea & Ec). intros E.
+    assert (Hin : In o' (cellL l)).
+    { unfold cellL. apply filter_In. split; [apply filter_In; split; [exact Ho'|]|].
+      - rewrite Ec, El. cbn. rewrite eqb_reflx. reflexivity.
+      - rewrite Ea. cbn. rewrite eqb_reflx. reflexivity. }
+    rewrite E in Hin. exact Hin. }
+  set (mu := fun l : bool => Qsum (fun o => oval (out o)) (cellL l) / Qlen (cellL l)).
+  assert (Hpred : forall o, In o os -> exists l w, cov o = Some l /\ cellmean_reg train ([a], [l]) = Some w /\ w == mu l).
+  { intros o Ho. pose proof (Hc o Ho) as Hco. destruct (cov o) as [l|] eqn:El; [|rewrite andb_false_r in Hco; discriminate].
+    exists l. unfold cellmean_reg. rewrite Esel. pose proof (Hcell o l Ho El) as Hn.
+    match goal with |- context [map ?g (cellL l)] => set (gg := g) end.
+    destruct (map gg (cellL l)) eqn:Em; [destruct (cellL l); [congruence|discriminate]|]. rewrite <- Em. clear Em.
+    eexists. split; [reflexivity|]. split; [reflexivity|].
+    rewrite Qred_correct, Qsumr_eq, Qsum_map, Qlen_map. unfold gg. cbn [snd]. reflexivity. }
+  destruct (mean_skipna_all (fun o => match cov o with Some l => cellmean_reg train ([a], [l]) | None => None end) os Hne) as (v & Ev & Hv).
+  { intros o Ho. destruct (Hpred o Ho) as (l & w & El & Ew & _). rewrite El, Ew. reflexivity. }
+  exists v. split; [exact Ev|]. rewrite Hv. unfold std1.
+  rewrite (Qsum_by_bool cov mu).
+  2:{ intros o Ho. destruct (Hpred o Ho) as (l & w & El & Ew & Hw). exists l. split; [exact El|]. rewrite El, Ew. exact Hw. }
+  assert (Ef : forall l, filter (okey cov l) os = filter (fun o => oeqb (opt_all [cov o]) [l]) os).
+  { intros l. apply filter_ext. intros o. unfold okey. destruct (cov o) as [c|]; cbn; [rewrite andb_true_r|]; reflexivity. }
+  cbn [Qsum]. fold (cellL false) (cellL true). fold (mu false) (mu true). rewrite !Ef.
+  assert (NC : ~ Qlen os == 0) by (apply Qlen_nonempty; exact Hne).
+  field. exact NC.
+Qed.
+
+(* ------------------------------------------------------------------------------------------------ nested form = textbook form *)
+Section Flat.
+Variable plan : planrow.
+Variable rows : list row.
+
+Definition fterm (k m : nat) (H : list bool) : Q :=
+  Qprod (fun j => fprop plan rows j (firstn j H) (nth j H false)) (seq k (S m)) *
+  Qprod (fun j => 1 - haz plan rows j (firstn (S j) H)) (seq k m) *
+  haz plan rows (k + m) H.
+
+Lemma firstn_app_exact {A} (l x : list A) k : length l = k -> firstn k (l ++ x) = l.
+Proof. intros H. rewrite firstn_app, H, Nat.sub_diag, firstn_O, app_nil_r. apply firstn_all2. lia. Qed.
+
+Lemma nth_app_exact {A} (l x : list A) (a d : A) k : length l = k -> nth k (l ++ a :: x) d = a.
+Proof. intros H. rewrite app_nth2 by lia. rewrite H, Nat.sub_diag. reflexivity. Qed.
+
+Lemma fterm_0 k lh l : length lh = k ->
+  fterm k 0 (lh ++ [l]) == fprop plan rows k lh l * haz plan rows k (lh ++ [l]).
+Proof.
+  intros H. unfold fterm. cbn [seq Qprod]. rewrite (firstn_app_exact lh [l] k H), (nth_app_exact lh [] l false k H).
+  rewrite Nat.add_0_r. ring.
+Qed.
+
+Lemma fterm_S k m lh l e : length lh = k ->
+  fterm k (S m) (lh ++ l :: e) ==
+  fprop plan rows k lh l * (1 - haz plan rows k (lh ++ [l])) * fterm (S k) m ((lh ++ [l]) ++ e).
+Proof.
+  intros H. unfold fterm. rewrite <- app_assoc. cbn [app].
+  change (seq k (S (S m))) with (k :: seq (S k) (S m)). change (seq k (S m)) with (k :: seq (S k) m).
+  cbn [Qprod]. rewrite (firstn_app_exact lh (l :: e) k H), (nth_app_exact lh e l false k H).
+  replace (firstn (S k) (lh ++ l :: e)) with (lh ++ [l]).
+  2:{ change (lh ++ l :: e) with (lh ++ [l] ++ e). rewrite app_assoc. symmetry. apply firstn_app_exact.
+      rewrite app_length, H. simpl. lia. }
+  replace (k + S m)%nat with (S k + m)%nat by lia. ring.
+Qed.
+
+Lemma np_rec_flat : forall d k lh, length lh = k ->
+  np_rec plan rows d k lh == Qsum (fun m => Qsum (fun e => fterm k m (lh ++ e)) (all_hists (S m))) (seq 0 d).
+Proof.
+  induction d as [|d IH]; intros k lh H; [reflexivity|].
+  change (seq 0 (S d)) with (0%nat :: seq 1 d). rewrite <- seq_shift. cbn [Qsum np_rec]. rewrite (Qsum_map S).
+  (* m = 0 *)
+  change (all_hists 1) with [[false]; [true]]. cbn [Qsum].
+  rewrite !(fterm_0 k lh _ H).
+  (* m >= 1 *)
+  assert (E : forall m, Qsum (fun e => fterm k (S m) (lh ++ e)) (all_hists (S (S m))) ==
+              fprop plan rows k lh false * (1 - haz plan rows k (lh ++ [false])) *
+                Qsum (fun e => fterm (S k) m ((lh ++ [false]) ++ e)) (all_hists (S m)) +
+              fprop plan rows k lh true * (1 - haz plan rows k (lh ++ [true])) *
+                Qsum (fun e => fterm (S k) m ((lh ++ [true]) ++ e)) (all_hists (S m))).
+  { intros m. change (all_hists (S (S m))) with (map (cons false) (all_hists (S m)) ++ map (cons true) (all_hists (S m))).
+    rewrite Qsum_app, !Qsum_map, <- !Qsum_scal. apply Qplus_comp; apply Qsum_ext_all; intros e; apply fterm_S; exact H. }
+  rewrite (Qsum_ext_all _ _ (seq 0 d) E), Qsum_plus, !Qsum_scal.
+  assert (Hl : forall l, length (lh ++ [l]) = S k) by (intros l; rewrite app_length, H; simpl; lia).
+  rewrite <- (IH (S k) (lh ++ [false]) (Hl false)), <- (IH (S k) (lh ++ [true]) (Hl true)). ring.
+Qed.
+
+Theorem np_nested_eq_flat : np_gformula plan rows == np_gformula_flat plan rows.
+Proof. unfold np_gformula, np_gformula_flat. rewrite (np_rec_flat (length plan) 0 [] eq_refl). reflexivity. Qed.
+End Flat.
